@@ -1,7 +1,7 @@
 #!/bin/bash
 # run_all.sh [tier] : every claimed check on the current tree, in sequence; prints one line per property
-T=${1:-quick}; cd /verif
+T=${1:-quick}; cd "$(dirname "$0")/.."; L=${TMPDIR:-/tmp}
 for p in $(python3 -c "import json; print(' '.join(c['property_id'] for c in json.load(open('MANIFEST.json'))['checks']))"); do
-  s=$(date +%s); VERIF_TIER=$T ./vf check $p > /tmp/runall-$p-$T.log 2>&1; rc=$?
-  echo "$p rc=$rc $(( $(date +%s) - s ))s $(grep -c '^KNOWN-FINDING' /tmp/runall-$p-$T.log) known $(grep -c '^VIOLATION' /tmp/runall-$p-$T.log) violations $(grep -c '^INCONCLUSIVE\|^ENGINE-MISMATCH' /tmp/runall-$p-$T.log) inconclusive"
+  s=$(date +%s); VERIF_TIER=$T ./vf check $p > $L/runall-$p-$T.log 2>&1; rc=$?
+  echo "$p rc=$rc $(( $(date +%s) - s ))s $(grep -c '^KNOWN-FINDING' $L/runall-$p-$T.log) known $(grep -c '^VIOLATION' $L/runall-$p-$T.log) violations $(grep -c '^INCONCLUSIVE\|^ENGINE-MISMATCH' $L/runall-$p-$T.log) inconclusive"
 done
